@@ -1,7 +1,7 @@
 SPECIFICATION Spec
 CONSTANTS
   MaxR = 3
-  MaxA = 2
+  MaxA = 1
   MaxE = 1
   Emit = TRUE
 INVARIANT SettledInv
